@@ -123,6 +123,7 @@ def _native_replay(sc: Scratch, script_path: Path, log_path: Path) -> tuple[bool
     env = env_offline()
     env["VERIF_C14_SCRIPT"] = str(Path(script_path).resolve())
     env["CARGO_TARGET_DIR"] = str(CACHE / "target-native-pavex")
+    env["RUSTFLAGS"] = "--cfg verif_replay"      # the same flags as the C15 replays: one shared native build
     p = subprocess.run(["cargo", "test", "--offline", "-p", "pavex", "--lib", "verif_replay_c14", "--", "--nocapture", "--test-threads", "1"],
                        cwd=sc.repo, env=env, stdout=subprocess.PIPE, stderr=subprocess.STDOUT, text=True)
     log_path.parent.mkdir(parents=True, exist_ok=True)
